@@ -41,7 +41,7 @@ class Sess:
         return '%s.encap(%s)' % (self.name, expr), None
 
 
-def inner_exprs(r, big_ok):
+def inner_exprs(r, big_ok, huge=False):
     """(declarations, list of (expr, is_single_pkt))"""
     decls = ['let tf = ipv4::tcp::flow(10.9.8.7:%d, 10.1.1.1:80);' % (1024 + r.below(60000)),
              'let uf = ipv4::udp::flow(10.9.8.7:5353, 10.2.2.2:53);']
@@ -56,20 +56,22 @@ def inner_exprs(r, big_ok):
         elif k == 4: opts.append(('ipv4::udp::unicast(1.2.3.4:1, 5.6.7.8:2, raw: true, "|%s|")' % r.bytes(r.below(20)).hex(), True))
         else:
             n = r.choice([100, 1400, 9000, 60000]) if big_ok else r.choice([100, 1400])
+            if huge: n = r.choice([65450, 65500, 65550, 66000, 70000])    # around and beyond what a 16-bit length can describe
             decls.append('let z%d = "|%s|";' % (len(decls), r.bytes(50).hex()))
             rep = n // 50
             opts.append(('eth::frame("|020000000001|", "|020000000002|", %s)' % ', '.join(['z%d' % (len(decls) - 1)] * rep), True))
     return decls, opts
 
 
-def check(c, r, layer_kinds, nstmts, tag, big_ok=False):
+def check(c, r, layer_kinds, nstmts, tag, big_ok=False, huge=False):
     sessions = [Sess(k, i, r) for i, k in enumerate(layer_kinds)]   # innermost first
-    decls, _ = inner_exprs(r, big_ok)
+    decls, _ = inner_exprs(r, big_ok, huge)
     head = ['import ipv4;', 'import eth;', 'import vxlan;', 'import gre;', 'import erspan1;', 'import erspan2;']
     body_enc, body_ref, meta = [], [], []
     alld = list(decls)
     for s in range(nstmts):
-        d, opts = inner_exprs(r, big_ok)
+        d, opts = inner_exprs(r, big_ok, huge)
+        if huge: opts = [o for o in opts if 'y' in o[0] or 'z' in o[0]] or opts
         for x in d[2:]:
             alld.append(x.replace('let z', 'let y%d_' % s))
         e, single = r.choice(opts)
@@ -115,7 +117,9 @@ def check(c, r, layer_kinds, nstmts, tag, big_ok=False):
                     d = cur if ss.raw else cur[14:]
                     if not ss.raw:
                         pass
-                    a = c.model.ask('oracle decap %s %s' % (ss.kind, sh_hex(d)))
+                    positional = len(d) > 65535    # length fields cannot describe it: the payload is what follows the fixed headers
+                    a = c.model.ask('oracle %s %s %s' % ('decappos' if positional else 'decap', ss.kind, sh_hex(d)))
+                    if positional: c.count('oversize-layer')
                     if not a.startswith('ok'):
                         c.violation('tunnel:%s:undecodable' % ss.kind, 'Spec decoder rejects layer %d (%s) of outer packet %d' % (li, ss.kind, i), rep); ok = False; break
                     f = kv(a)
@@ -126,7 +130,7 @@ def check(c, r, layer_kinds, nstmts, tag, big_ok=False):
                         pi = meta[min(stmt_of[i], len(meta) - 1)][li] if stmt_of[i] < len(meta) else None
                         want = dict(seq=str(counts[ss.name] % 2 ** 32), ver='1', session='0')
                         if pi is not None: want['index'] = str(pi)
-                    bad = [k for k in want if f.get(k) != want[k]]
+                    bad = [k for k in want if f.get(k) != want[k]] if not positional else []
                     if bad:
                         c.violation('tunnel:%s:%s' % (ss.kind, ','.join(bad)), 'tunnel header field(s) %s wrong at layer %d of packet %d: got %s want %s'
                                     % (bad, li, i, {k: f.get(k) for k in bad}, {k: want[k] for k in bad}), rep); ok = False
@@ -155,7 +159,13 @@ def campaign(c):
     for j in range(m):
         r = c.rng.fork('tr%d' % j)
         check(c, r, [r.choice(KINDS) for _ in range(1 + r.below(5))], 1 + r.below(6), 'rand', big_ok=(not c.quick) or j % 10 == 0)
-    c.assumptions += ['reference inner frames are produced by the real binary from the same program without the encapsulating calls',
+    # inner frames around and beyond 64 KiB through every kind, alone and nested in pairs
+    combos = [[k] for k in KINDS] + [['vxlan', 'gre'], ['gre', 'erspan2'], ['erspan1', 'vxlan']] + ([] if c.quick else [list(x) for x in itertools.product(KINDS, repeat=2)])
+    for j, combo in enumerate(combos):
+        for rep in range(2 if c.quick else 6):
+            check(c, c.rng.fork('huge%d.%d' % (j, rep)), combo, 2, 'huge', big_ok=True, huge=True)
+    c.assumptions += ['an outer datagram that exceeds 65535 bytes is peeled positionally (Spec.decapPositional): its length fields cannot describe it',
+                      'reference inner frames are produced by the real binary from the same program without the encapsulating calls',
                       'record grouping into statements uses equal timestamps within a statement']
 
 
